@@ -92,21 +92,44 @@ class Gen:
         return f"{cid} | {e} | {' '.join(specs)} | {' '.join(evs)}"
 
 
+def _clean_fn(fn):
+    import re
+    prev = None
+    while prev != fn:                      # drop template arguments
+        prev = fn
+        fn = re.sub(r"<[^<>]*>", "", fn)
+    if fn.startswith("decltype"):          # "decltype (...) real::name(args)"
+        depth = 0
+        for i, ch in enumerate(fn):
+            if ch == "(":
+                depth += 1
+            elif ch == ")":
+                depth -= 1
+                if depth == 0:
+                    fn = fn[i + 1:].strip()
+                    break
+    fn = fn.split("(")[0].strip()
+    fn = re.sub(r"^(void|auto|bool|int) ", "", fn)
+    return fn.split(" ")[-1] if fn else fn
+
+
 def crash_site(err):
     """stable site string from an ASan/UBSan report: error kind + the first two /repo frames"""
     import re
     kind = "crash"
-    m = re.search(r"ERROR: AddressSanitizer: ([a-z\-]+)", err)
+    m = re.search(r"ERROR: AddressSanitizer: ([A-Za-z\-]+)", err)
     if m:
         kind = "asan " + m.group(1)
+        if m.group(1) == "ABRT":
+            kind = "terminate" if "terminate called" in err else "abort"
     elif "runtime error:" in err:
         kind = "ubsan " + err.split("runtime error:")[1].split("\n")[0].strip()[:60]
+    elif "terminate called" in err:
+        kind = "terminate"
     frames = []
     for m in re.finditer(r"#\d+ 0x[0-9a-f]+ in (.+?) (/repo/\S+?):(\d+)", err):
-        fn = m.group(1)
-        fn = re.sub(r"<.*", "", fn)            # drop template arguments
-        fn = fn.split("(")[0]
-        if fn not in frames and not fn.startswith("std::"):
+        fn = _clean_fn(m.group(1))
+        if fn and fn not in frames and not fn.startswith("std::") and "operator()" not in fn and "tag_invoke" not in fn:
             frames.append(fn)
         if len(frames) == 2:
             break
@@ -119,7 +142,7 @@ def run_lines(exe, lines, prefix, timeout=900):
     out = [None] * len(lines)
     crashes = []
     start = 0
-    env = dict(os.environ, ASAN_OPTIONS="detect_leaks=0:abort_on_error=0:symbolize=1", UBSAN_OPTIONS="print_stacktrace=1")
+    env = dict(os.environ, ASAN_OPTIONS="detect_leaks=0:abort_on_error=0:symbolize=1:handle_abort=1", UBSAN_OPTIONS="print_stacktrace=1")
     t0 = time.time()
     while start < len(lines):
         inp = "".join(prefix + l + "\n" for l in lines[start:])
